@@ -227,8 +227,11 @@ func c09dir(c *h.Ctx, idx int, mask int, taskForm string, fromSub, staged bool) 
 		os.MkdirAll(real+"/"+d, 0o755)
 	}
 	hasStage, hasTask, hasCtx := mask&1 != 0 && staged, mask&2 != 0, mask&4 != 0
-	pw := func(tag string) string { return fmt.Sprintf("printf '%s=[%%s]\\n' \"$(pwd)\" >> '%s'", tag, trace) }
-	tdef := gen.OM{{K: "before", V: []interface{}{pw("before")}}, {K: "command", V: []interface{}{pw("c0"), pw("c1")}}, {K: "after", V: []interface{}{pw("after")}}, {K: "context", V: "cx"}}
+	// (the directory is asked of an external program: after a `cd` in an earlier command the shell's own `pwd`/$PWD
+	// are stale on the unchanged tree although the commands do run where they should - an observation, see DESIGN)
+	pw := func(tag string) string { return fmt.Sprintf("printf '%s=[%%s]\\n' \"$(/bin/pwd)\" >> '%s'", tag, trace) }
+	// a command that changes its own directory moves nothing but itself: the next command starts where the levels say
+	tdef := gen.OM{{K: "before", V: []interface{}{pw("before") + "; cd /"}}, {K: "command", V: []interface{}{pw("c0") + "; cd /; cd /usr", pw("c1")}}, {K: "after", V: []interface{}{pw("after")}}, {K: "context", V: "cx"}}
 	if hasTask {
 		if taskForm == "root" {
 			tdef.Set("dir", "{{.Root}}/taskdir")
